@@ -72,7 +72,7 @@ def handler : Handler := fun scn => do
   let objs0 := (arr scn "objs").map objOf
   let refs0 : List Ref := (arr scn "refs").map fun j => ⟨str j "kind", str j "name"⟩
   let mut st : St := { xrFin := bool scn "fin", xrRv := 0, refs := refs0,
-                       objs := objs0, refsVer := "v1", foreign0 := objs0.filter (·.ctrl == .other) }
+                       objs := objs0, refsVer := "v1", xrApplied := !(bool scn "fresh"), foreign0 := objs0.filter (·.ctrl == .other) }
   let mut outs : Array Json := #[]
   let mut ok := true
   let mut why := ""
